@@ -150,8 +150,8 @@ class Dir:
     """One direction of one channel, as reconstructed from the wire."""
 
     __slots__ = (
-        'sender', 'peer_mtu', 'peer_mps', 'granted', 'sent', 'stream', 'sdu_need', 'sdu_have', 'sdus', 'frames',
-        'credit_frames', 'min_ledger', 'zero_credit_waits', 'initial',
+        'sender', 'peer_mtu', 'peer_mps', 'granted', 'sent', 'stream', 'sdu_need', 'sdus', 'frames',
+        'credit_frames', 'min_ledger', 'zero_credit_waits', 'initial', 'complete_len', 'max_pdu',
     )
 
     def __init__(self, sender, peer_mtu, peer_mps, initial):
@@ -163,12 +163,13 @@ class Dir:
         self.sent = 0  # data frames sent
         self.stream = bytearray()  # SDU payload bytes in wire order (= the byte stream)
         self.sdu_need = None  # bytes still missing from the current SDU (None = between SDUs)
-        self.sdu_have = bytearray()
         self.sdus = []  # SDU lengths
         self.frames = []  # frame payload lengths
         self.credit_frames = []  # credit values of flow-control frames delivered to the sender
         self.min_ledger = initial
         self.zero_credit_waits = 0  # times the ledger reached 0 after a send
+        self.complete_len = 0  # length of `stream` when the last SDU completed (what a correct receiver has delivered)
+        self.max_pdu = 0  # largest L2CAP PDU (basic header included) sent
 
 
 class Chan:
@@ -197,6 +198,7 @@ class Monitor:
         self.n_sig = 0
         self.n_data = 0
         self.refused = []
+        self.orphans = []  # data frames sent ahead of the response that opens their channel
 
     # -- helpers -------------------------------------------------------------
     def problem(self, check, sig, msg):
@@ -287,6 +289,10 @@ class Monitor:
             self.by_endpoint[(client, ccid)] = ch
             self.by_endpoint[(server, scid)] = ch
             d['_chans'].append(ch)
+            for o_side, o in [x for x in self.orphans]:
+                if o_side == server and o['cid'] == ccid:
+                    self.orphans.remove((o_side, o))
+                    self._account(ch, server, o)
 
     def _sig_delivered(self, side, d):
         """side = receiving host."""
@@ -314,8 +320,23 @@ class Monitor:
         ch = self.chan_for_data(side, cid)
         if ch is None:
             if cid >= DYN_FIRST:
-                self.problem('data_unknown_cid', {'what': 'data_on_unknown_cid'}, f'side {side} sent {len(payload)} bytes on CID {cid:#06x}, not an open endpoint of the peer')
+                pending = any(c == 1 - side and cid in r['scids'] for (c, _), r in self.requests.items())
+                if pending:
+                    # data on a channel whose connection request this side has not answered yet
+                    self.problem(
+                        'data_before_response',
+                        {'what': 'data_sent_before_connection_response'},
+                        f'side {side} sent {len(payload)} data bytes to endpoint {cid:#06x} before sending the connection response that opens the channel',
+                    )
+                    self.orphans.append((side, d))
+                    self.log.append(f'{side}>D?[{cid:#x}]{len(payload)}')
+                else:
+                    self.problem('data_unknown_cid', {'what': 'data_on_unknown_cid'}, f'side {side} sent {len(payload)} bytes on CID {cid:#06x}, not an open endpoint of the peer')
             return
+        self._account(ch, side, d)
+
+    def _account(self, ch, side, d):
+        cid, payload = d['cid'], d['payload']
         dr = ch.dirs[side]
         which = 'client' if side == ch.client else 'server'
         kind = 'enhanced' if ch.enhanced else 'le_coc'
@@ -334,6 +355,7 @@ class Monitor:
         if dr.granted - dr.sent == 0:
             dr.zero_credit_waits += 1
         dr.frames.append(len(payload))
+        dr.max_pdu = max(dr.max_pdu, 4 + len(payload))
         if len(payload) > dr.peer_mps:
             self.problem(
                 'frame_exceeds_mps',
@@ -371,6 +393,7 @@ class Monitor:
         dr.sdu_need -= len(body)
         if dr.sdu_need == 0:
             dr.sdu_need = None
+            dr.complete_len = len(dr.stream)
 
     # -- summary -------------------------------------------------------------
     def channel(self, client_side, index=0):
